@@ -22,8 +22,8 @@ Proof. unfold hexdig. destruct (n <? 10) eqn:E; lia. Qed.
 
 (* one-step equations of the unquote loop, all by computation *)
 Lemma unq_plain c tl acc : (c =? dquote) = false -> (c =? 10) = false -> (c =? bslash) = false ->
-  unq_loop (c :: tl) acc = unq_loop tl (acc ++ [c]).
-Proof. intros H1 H2 H3. cbn [unq_loop]. rewrite H1, H2, H3. reflexivity. Qed.
+  is_raw c = false -> unq_loop (c :: tl) acc = unq_loop tl (acc ++ [c]).
+Proof. intros H1 H2 H3 H4. cbn [unq_loop]. rewrite H1, H2, H3, H4. reflexivity. Qed.
 
 Lemma unq_x a b tl acc : unq_loop (bslash :: 120 :: a :: b :: tl) acc =
   match unhex_list [a; b] 0 with Some v => unq_loop tl (acc ++ [as_byte v]) | None => Err e_unquote end.
@@ -92,6 +92,12 @@ Proof.
   lia.
 Qed.
 
+(* the runes of a Go string: Unicode scalar values and raw (invalid) bytes *)
+Definition go_rune (r : rune) : bool := valid_rune r || is_raw r.
+
+Lemma valid_not_raw r : valid_rune r = true -> is_raw r = false.
+Proof. unfold valid_rune, is_raw, max_rune, raw_byte_base. lia. Qed.
+
 Section Quote.
   Variable isp : rune -> bool.
   Hypothesis isp_ascii : forall r, r < 128 -> isp r = ascii_print r.
@@ -102,10 +108,18 @@ Section Quote.
   Qed.
 
   (* Unquote reads back one escaped rune *)
-  Lemma unq_esc_rune r tl acc : valid_rune r = true ->
+  Lemma unq_esc_rune r tl acc : go_rune r = true ->
     unq_loop (esc_rune isp r ++ tl) acc = unq_loop tl (acc ++ [r]).
   Proof.
-    intros Hv. unfold esc_rune.
+    intros Hg. unfold esc_rune. destruct (is_raw r) eqn:Eraw.
+    { unfold is_raw, raw_byte_base in Eraw. cbn [app].
+      change (bslash :: 120 :: hex2 (r - raw_byte_base) ++ tl)
+        with (bslash :: 120 :: hexdig ((r - raw_byte_base) / 16 mod 16) :: hexdig ((r - raw_byte_base) mod 16) :: tl).
+      rewrite unq_x. change [hexdig ((r - raw_byte_base) / 16 mod 16); hexdig ((r - raw_byte_base) mod 16)] with (hex2 (r - raw_byte_base)).
+      rewrite hex2_val by (unfold raw_byte_base; lia). unfold as_byte.
+      assert (E : (r - raw_byte_base <? 128) = false) by (unfold raw_byte_base; lia). rewrite E.
+      f_equal. f_equal. f_equal. unfold raw_byte_base. lia. }
+    assert (Hv : valid_rune r = true) by (unfold go_rune in Hg; rewrite Eraw, orb_false_r in Hg; exact Hg).
     destruct ((r =? dquote) || (r =? bslash)) eqn:E1.
     { apply orb_true_iff in E1 as [E|E]; apply N.eqb_eq in E; subst r; reflexivity. }
     apply orb_false_iff in E1 as [E1a E1b].
@@ -142,7 +156,7 @@ Section Quote.
       rewrite hex8_val by (unfold valid_rune in Hv; lia). rewrite Hv. reflexivity.
   Qed.
 
-  Lemma unq_flat s : Forall (fun r => valid_rune r = true) s -> forall rem acc,
+  Lemma unq_flat s : Forall (fun r => go_rune r = true) s -> forall rem acc,
     unq_loop (flat_map (esc_rune isp) s ++ dquote :: rem) acc = Ok (acc ++ s, rem).
   Proof.
     induction 1 as [|r s Hr _ IH]; intros rem acc; cbn [flat_map app].
@@ -150,7 +164,7 @@ Section Quote.
     - rewrite <- app_assoc, unq_esc_rune by exact Hr. rewrite IH, <- app_assoc. reflexivity.
   Qed.
 
-  Theorem quote_unquote_l s : Forall (fun r => valid_rune r = true) s ->
+  Theorem quote_unquote_l s : Forall (fun r => go_rune r = true) s ->
     unquote (quote isp s) = Ok s.
   Proof.
     intros Hs. unfold quote, unquote.
@@ -161,17 +175,21 @@ Section Quote.
   Qed.
 
   (* the quoted text contains no NUL and no newline *)
-  Lemma esc_rune_clean r : Forall (fun c => c <> 0 /\ c <> 10) (esc_rune isp r).
+  Lemma esc_rune_clean r : Forall (fun c => c <> 0 /\ c <> 10 /\ is_raw c = false) (esc_rune isp r).
   Proof.
-    unfold esc_rune.
+    assert (Hh : forall n, n < 16 -> hexdig n <> 0 /\ hexdig n <> 10 /\ is_raw (hexdig n) = false).
+    { intros n Hn. pose proof (hexdig_range n Hn). unfold is_raw, raw_byte_base. lia. }
+    assert (Hs : forall c, 0 < c < 128 -> c <> 10 -> c <> 0 /\ c <> 10 /\ is_raw c = false).
+    { intros c Hc H10. unfold is_raw, raw_byte_base. lia. }
+    unfold esc_rune. destruct (is_raw r) eqn:Eraw.
+    { unfold hex2. repeat constructor; try (apply Hs; unfold bslash; lia); apply Hh, N.mod_lt; lia. }
     destruct ((r =? dquote) || (r =? bslash)) eqn:E1.
-    { repeat constructor; unfold bslash, dquote in *; lia. }
+    { repeat constructor; apply Hs; unfold bslash, dquote in *; lia. }
     destruct (isp r) eqn:Ep.
     { destruct (isp_not_special r Ep). repeat constructor; auto. }
-    assert (Hh : forall n, n < 16 -> hexdig n <> 0 /\ hexdig n <> 10) by (intros n Hn; pose proof (hexdig_range n Hn); lia).
     repeat match goal with |- context [if ?b then _ else _] => destruct b end;
-      unfold hex8, hex4, hex2; cbn [app]; repeat constructor; unfold bslash; try lia;
-      try (apply Hh, N.mod_lt; lia).
+      unfold hex8, hex4, hex2; cbn [app]; repeat constructor;
+      try (apply Hs; unfold bslash; lia); apply Hh, N.mod_lt; lia.
   Qed.
 End Quote.
 
